@@ -47,7 +47,8 @@ def linear_allocate_live_ranges(live_ranges, alloc_granularity=Tensor.Allocation
         if tens in allocated_tensors:
             continue
 
-        address = total_sz
+        # the next free address, aligned as this range requested (a no-op as long as no range asks for more than the granularity)
+        address = total_sz = numeric_util.round_up(total_sz, lr.get_alignment())
         if tens.weight_compression_config is not None:
             for allocated_tens in allocated_tensors:
                 if allocated_tens.weight_compression_config == tens.weight_compression_config:
